@@ -1031,7 +1031,7 @@ def semantic_validators(ctx: Ctx) -> Dict[str, Dict[str, object]]:
 def X3c(ctx: Ctx) -> RuleResult:
     r = RuleResult('X3c', 're-validation exposure: every copy-with-changes / construction in rewrite.py of a class with semantic validators (sanity, presence, hygiene) either leaves the fields those validators read untouched or is justified by a checked monotonicity fact')
     from .rules_rewrite import rewrite_eval, Shapes, canon, IH_FUNCS, _fname
-    from .terms import Attr, BoundMethod, Call, Comp, Const, New, Op, Sym, Term, walk, norm_guards, EnumMember
+    from .terms import Attr, BoundMethod, Call, Comp, Const, New, Op, Sym, Term, walk, norm_guards, EnumMember, expand_outcomes
     from .util import call_name, call_recv, outcome_terms
     sem = semantic_validators(ctx)
     if 'HplProperty' not in sem or 'HplQuantifier' not in sem:
@@ -1040,12 +1040,41 @@ def X3c(ctx: Ctx) -> RuleResult:
     ev = rewrite_eval(ctx)
     mod = ctx.model.module('hpl.rewrite', 'X3c')
     n = 0
+    # module call graph: a site is identified by the public entry point(s) that reach it, so that moving the site into a
+    # private helper does not change its identity
+    calls: Dict[str, Set[str]] = {}
+    for fn in mod.functions.values():
+        calls[fn.name] = {x.id for x in ast.walk(fn.node) if isinstance(x, ast.Name) and x.id in mod.functions and x.id != fn.name}
+    callers: Dict[str, Set[str]] = {k: set() for k in calls}
+    for k, vs in calls.items():
+        for v in vs:
+            callers[v].add(k)
+
+    def entries(name: str) -> str:
+        if not name.startswith('_'):
+            return name
+        seen, todo, roots = {name}, [name], set()
+        while todo:
+            x = todo.pop()
+            for cname in callers.get(x, ()):
+                if cname in seen:
+                    continue
+                seen.add(cname)
+                if cname.startswith('_'):
+                    todo.append(cname)
+                else:
+                    roots.add(cname)
+        return '|'.join(sorted(roots)) or name
     for fi in mod.functions.values():
+        if fi.name.startswith('_') and callers.get(fi.name) and ev.inline(fi, 1):
+            # looked through at every call site: its sites are judged in the callers' contexts
+            continue
         try:
-            outs = ev.run(fi)
+            outs = expand_outcomes(ev.run(fi))
         except AnalysisError:
             continue
         seen_keys = set()
+        entry = entries(fi.name)
         for o in outs:
             sh = Shapes()
             for g, pol in o.guards:
@@ -1068,7 +1097,7 @@ def X3c(ctx: Ctx) -> RuleResult:
                     if site is None:
                         continue
                     cls, ks, vals, recv, how = site
-                    key = f'{fi.qualname}:{cls}.{how}({",".join(ks)})'
+                    key = f'{entry}:{cls}.{how}({",".join(ks)})'
                     reads = set(sem[cls]['reads'])
                     touched = sorted(set(ks) & reads)
                     if (key, repr(vals)) in seen_keys:
